@@ -14,7 +14,7 @@ model_input = corelib.model_input
 project = corelib.project_all
 project_pair = corelib.project_pair
 FULL_ALPHABET = ['ctx', 'reg', 'reg', 'life', 'life', 'life', 'loop', 'loop', 'ps', 'ps', 'sub', 'become', 'stash', 'batch',
-                 'tb', 'fd', 'fd', 'tmr', 'srclen', 'errno', 'flags', 'prio', 'pill', 'tick', 'burst', 'foreign']
+                 'tb', 'fd', 'fd', 'tmr', 'srclen', 'errno', 'flags', 'prio', 'pill', 'tick', 'burst', 'foreign', 'src2']
 
 
 def gen_fragments():
